@@ -84,8 +84,9 @@ class Closure:
 
 
 def subst_term(t, mapping):
-    """replace sub-terms (DAG-safe)"""
+    """replace sub-terms (DAG-safe); occurrences of lv(L) bound by an inner loop L are left alone"""
     memo = {}
+    bound_labels = {k.args[0] for k in mapping if isinstance(k, Term) and k.op == "lv" and k.args}
 
     def rec_atom(at):
         if isinstance(at, tuple):
@@ -112,6 +113,12 @@ def subst_term(t, mapping):
             r = mapping[x]
         elif not x.args:
             r = x
+        elif x.op in ("loop", "comp") and x.args[0] in bound_labels:
+            # a loop / comprehension that re-binds the label (sibling loops share labels): its body is closed
+            if x.op == "loop" and len(x.args) == 4:
+                r = Term("loop", x.args[0], rec(x.args[1]), rec(x.args[2]), x.args[3])
+            else:
+                r = Term("comp", x.args[0], rec(x.args[1]), *x.args[2:])
         else:
             args = tuple(rec(y) for y in x.args)
             r = x if all(p is q for p, q in zip(args, x.args)) else Term(x.op, *args)
@@ -1510,6 +1517,11 @@ class Interp:
                     vt = loops.vectorise(elt.term, lvt, n, self.term_shape, self.api.dim_term)
                 elif esh is not None:
                     vt = loops.row_selection(elt.term, lvt, n, self.term_shape)
+                if vt is None and not masks and it.kind == "range":
+                    blk = loops.consecutive_blocks(elt.term, lvt, n, self.term_shape)
+                    if blk is not None:
+                        # consecutive row blocks of lengths L (np.split at the running sums)
+                        return V("list", T("blocks", blk[0], blk[1]), items=None, labels=it.labels | elt.labels, orig=frozenset([FRESH]), extra=("comp", elt, None), loc=fresh_id())
                 if vt is None and esh is not None and len(esh) == 2 and not masks:
                     lifted = loops.lift_broadcast(elt.term, lvt, n, self.term_shape, self.api.dim_term)
                     if lifted is not None:
